@@ -10,10 +10,16 @@ func init() {
 	env.Register("C18_Leader", C18_Leader)
 }
 
+// ids: one byte (idlen=1) or four bytes sharing their first three (idlen=4): the last byte is the member number
 func c18Committee(n int) []interfaces.CommitteeMember {
 	members := make([]interfaces.CommitteeMember, n)
+	long := env.Param("idlen") == 4
 	for i := 0; i < n; i++ {
-		members[i] = interfaces.CommitteeMember{Id: primitives.MemberId{byte(i + 1)}, Weight: 1}
+		id := primitives.MemberId{byte(i + 1)}
+		if long {
+			id = primitives.MemberId{0xAB, 0xCD, 0xEF, byte(i + 1)}
+		}
+		members[i] = interfaces.CommitteeMember{Id: id, Weight: 1}
 	}
 	return members
 }
@@ -32,12 +38,24 @@ func C18_Leader() {
 	}
 	// reference: unsigned modulo. ids are byte(i+1), so compare the id byte.
 	want := byte(uint64(view)%uint64(n)) + 1
-	env.Assert("C18.round_robin", env.And(len(got) == 1, got[0] == want))
+	env.Assert("C18.round_robin", env.And(len(got) == len(members[0].Id), got[len(got)-1] == want))
 	// determinism + isLeader consistency
 	got2 := calcLeaderOfViewAndCommittee(view, members)
 	env.Assert("C18.deterministic", env.EqBytes(got, got2))
 	err := isLeaderOfViewForThisCommittee(got, view, members)
 	env.Assert("C18.is_leader_consistent", err == nil)
+	// exactly one member is the leader: a symbolically chosen other member is not
+	o := env.NondetU64("other_member")
+	env.Assume(o < uint64(n))
+	cand := members[0].Id
+	for i := 1; i < n; i++ {
+		if o == uint64(i) { // concretised by the fork
+			cand = members[i].Id
+		}
+	}
+	if !env.EqBytes(cand, got) {
+		env.Assert("C18.only_one_leader", isLeaderOfViewForThisCommittee(cand, view, members) != nil)
+	}
 	// window: a second view in the same run of n consecutive views has a different leader
 	d := env.NondetU64("delta")
 	env.Assume(d >= 1 && d < uint64(n))
